@@ -17,6 +17,12 @@ type MemEnv = Vec<(String, Vec<f64>)>;
 type Subst = Vec<(String, Expression)>;
 
 fn eval_to_sexp(r: Result<Complex64, EvaluationError>) -> Sexp {
+    if let Err(e) = &r {
+        // format every returned error (a panic here is a crash outcome of the case)
+        use std::error::Error as _;
+        let texts = [e.to_string(), format!("{e:#}"), format!("{e:?}"), format!("{:?}", e.source().map(|s| s.to_string()))];
+        assert!(texts.iter().all(|t| !t.is_empty()), "empty error text");
+    }
     match r {
         Ok(c) => tagged("ok", vec![complex_to_sexp(c)]),
         Err(EvaluationError::Incomplete) => tagged("err", vec![atom("incomplete")]),
@@ -205,6 +211,167 @@ fn emit_routes(ctx: &mut Ctx, e: &Expression) {
     });
 }
 
+// ------------------------------------------------------------------ sequences, instruction-level routes, text routes
+
+/// `(c13seq e ρ μ σ1 σ2)`: sequences of calls on one expression.  Output
+/// `(seq <subst σ2 (subst σ1 e)> <evaluate of that> <evaluate e before> <evaluate e after all calls>
+///       <e re-encoded after all calls> <simplified e> <substitute σ1 into the simplified e> <subst σ1 e, second call>)`.
+fn emit_seq(ctx: &mut Ctx, e: &Expression, rho: &VarEnv, mu: &MemEnv, s1: &Subst, s2: &Subst) {
+    let input = tagged(
+        "c13seq",
+        vec![expr_to_sexp(e), var_env_to_sexp(rho), mem_env_to_sexp(mu), subst_to_sexp(s1), subst_to_sexp(s2)],
+    );
+    ctx.case(input, || {
+        let variables: HashMap<String, Complex64> = rho.iter().cloned().collect();
+        let memory: HashMap<String, Vec<f64>> = mu.iter().cloned().collect();
+        let m1: HashMap<String, Expression> = s1.iter().cloned().collect();
+        let m2: HashMap<String, Expression> = s2.iter().cloned().collect();
+        let before = e.evaluate(&variables, &memory);
+        let first = e.substitute_variables(&m1);
+        let twice = first.substitute_variables(&m2);
+        let twice_value = twice.evaluate(&variables, &memory);
+        let simplified = e.clone().into_simplified();
+        let simplified_subst = simplified.substitute_variables(&m1);
+        let first_again = e.substitute_variables(&m1);
+        let after = e.evaluate(&variables, &memory);
+        tagged(
+            "seq",
+            vec![
+                expr_to_sexp(&twice),
+                eval_to_sexp(twice_value),
+                eval_to_sexp(before),
+                eval_to_sexp(after),
+                expr_to_sexp(e),
+                expr_to_sexp(&simplified),
+                expr_to_sexp(&simplified_subst),
+                expr_to_sexp(&first_again),
+                expr_to_sexp(&first),
+            ],
+        )
+    });
+}
+
+/// `(c13instr e1 e2)`: the memory references of expressions embedded in instructions, through the public
+/// instruction-level accessors: `DefaultHandler.memory_accesses(..).reads` (a set of region names, sent sorted)
+/// for every instruction kind that carries expressions, and `WaveformInvocation::memory_references()`.
+fn emit_instr(ctx: &mut Ctx, e1: &Expression, e2: &Expression) {
+    use quil_rs::instruction::{
+        Capture, DefaultHandler, Delay, ExternSignatureMap, FrameIdentifier, Gate, Instruction, InstructionHandler as _,
+        MemoryReference, Pulse, Qubit, RawCapture, SetFrequency, SetPhase, SetScale, ShiftFrequency, ShiftPhase,
+        WaveformInvocation,
+    };
+    ctx.case(tagged("c13instr", vec![expr_to_sexp(e1), expr_to_sexp(e2)]), || {
+        let frame = || FrameIdentifier { name: "f".to_string(), qubits: vec![Qubit::Fixed(0)] };
+        let mut parameters = quil_rs::instruction::WaveformParameters::new();
+        parameters.insert("alpha".to_string(), e1.clone());
+        parameters.insert("beta".to_string(), e2.clone());
+        let waveform = WaveformInvocation { name: "w".to_string(), parameters };
+        let target = MemoryReference { name: "target".to_string(), index: 0 };
+        let single: Vec<(&str, Instruction)> = vec![
+            ("delay", Instruction::Delay(Delay { duration: e1.clone(), frame_names: vec![], qubits: vec![Qubit::Fixed(0)] })),
+            ("set_phase", Instruction::SetPhase(SetPhase { frame: frame(), phase: e1.clone() })),
+            ("set_scale", Instruction::SetScale(SetScale { frame: frame(), scale: e1.clone() })),
+            ("shift_phase", Instruction::ShiftPhase(ShiftPhase { frame: frame(), phase: e1.clone() })),
+            ("set_frequency", Instruction::SetFrequency(SetFrequency { frame: frame(), frequency: e1.clone() })),
+            ("shift_frequency", Instruction::ShiftFrequency(ShiftFrequency { frame: frame(), frequency: e1.clone() })),
+            (
+                "raw_capture",
+                Instruction::RawCapture(RawCapture {
+                    blocking: true,
+                    frame: frame(),
+                    duration: e1.clone(),
+                    memory_reference: target.clone(),
+                }),
+            ),
+        ];
+        let double: Vec<(&str, Instruction)> = vec![
+            (
+                "gate",
+                Instruction::Gate(Gate {
+                    name: "G".to_string(),
+                    parameters: vec![e1.clone(), e2.clone()],
+                    qubits: vec![Qubit::Fixed(0)],
+                    modifiers: vec![],
+                }),
+            ),
+            ("pulse", Instruction::Pulse(Pulse { blocking: true, frame: frame(), waveform: waveform.clone() })),
+            (
+                "capture",
+                Instruction::Capture(Capture {
+                    blocking: true,
+                    frame: frame(),
+                    memory_reference: target.clone(),
+                    waveform: waveform.clone(),
+                }),
+            ),
+        ];
+        let reads = |i: &Instruction| match DefaultHandler.memory_accesses(&ExternSignatureMap::default(), i) {
+            Ok(a) => {
+                let mut v: Vec<String> = a.reads.into_iter().collect();
+                v.sort();
+                list(v.into_iter().map(st).collect())
+            }
+            Err(e) => tagged("err", vec![st(e.to_string())]),
+        };
+        let mut out = Vec::new();
+        for (n, i) in &single {
+            out.push(tagged("single", vec![atom(*n), reads(i)]));
+        }
+        for (n, i) in &double {
+            out.push(tagged("double", vec![atom(*n), reads(i)]));
+        }
+        // WaveformInvocation::memory_references(): collect, count, for_each, next() then for_each
+        let collected: Vec<_> = waveform.memory_references().collect();
+        out.push(tagged("wf_collect", vec![list(collected.iter().map(|r| memref_to_sexp(r)).collect())]));
+        out.push(tagged("wf_count", vec![nat(waveform.memory_references().count() as u64)]));
+        let mut v = Vec::new();
+        waveform.memory_references().for_each(|r| v.push(memref_to_sexp(r)));
+        out.push(tagged("wf_for_each", vec![list(v)]));
+        let mut it = waveform.memory_references();
+        let first = it.next().map(memref_to_sexp);
+        let mut rest = Vec::new();
+        it.for_each(|r| rest.push(memref_to_sexp(r)));
+        out.push(tagged("wf_next_for_each", vec![list(first.into_iter().chain(rest).collect())]));
+        tagged("instr", out)
+    });
+}
+
+/// `(c13text e)`: text routes.  `MemoryReference` Display → `FromStr` for every reference of `e`, and
+/// `Expression` `to_quil` → `from_str` → `memory_references()` (`(na)` when it does not print or re-parse: that is
+/// C03's business, here only the references of a re-parsed expression are compared).
+fn emit_text(ctx: &mut Ctx, e: &Expression) {
+    use quil_rs::instruction::MemoryReference;
+    use quil_rs::quil::Quil;
+    use std::str::FromStr;
+    ctx.case(tagged("c13text", vec![expr_to_sexp(e)]), || {
+        let round: Vec<Sexp> = e
+            .memory_references()
+            .map(|r| {
+                let text = r.to_string();
+                let quil = r.to_quil().unwrap_or_default();
+                match MemoryReference::from_str(&text) {
+                    Ok(back) => tagged("ok", vec![memref_to_sexp(&back), boolean(text == quil)]),
+                    Err(err) => {
+                        let _ = (err.to_string(), format!("{err:?}"));
+                        tagged("err", vec![st(text)])
+                    }
+                }
+            })
+            .collect();
+        let reparsed = match e.to_quil() {
+            Ok(text) => match Expression::from_str(&text) {
+                Ok(back) => tagged("refs", vec![list(back.memory_references().map(memref_to_sexp).collect())]),
+                Err(err) => {
+                    let _ = (err.to_string(), format!("{err:?}"));
+                    tagged("na", vec![atom("parse")])
+                }
+            },
+            Err(_) => tagged("na", vec![atom("print")]),
+        };
+        tagged("text", vec![list(round), reparsed])
+    });
+}
+
 fn c(re: f64, im: f64) -> Complex64 {
     Complex64::new(re, im)
 }
@@ -360,11 +527,21 @@ fn exhaustive(ctx: &mut Ctx, alphabet: &Alphabet, depth: usize, skip_below: usiz
     let mems = mem_configs();
     let trees = all_exprs(alphabet, depth);
     let mut k = 0usize;
-    for e in &trees {
+    for (ti, e) in trees.iter().enumerate() {
         if qvh::expr::depth(e) < skip_below {
             continue;
         }
         emit_routes(ctx, e);
+        emit_text(ctx, e);
+        emit_instr(ctx, e, &trees[(ti * 7 + 3) % trees.len()]);
+        emit_seq(
+            ctx,
+            e,
+            &rhos[ti % rhos.len()],
+            &mems[ti % mems.len()],
+            &sigmas[(ti / 2) % sigmas.len()],
+            &sigmas[(ti / 3 + 1) % sigmas.len()],
+        );
         for rho in &rhos {
             for sigma in &sigmas {
                 if all_mem {
@@ -380,25 +557,42 @@ fn exhaustive(ctx: &mut Ctx, alphabet: &Alphabet, depth: usize, skip_below: usiz
     }
 }
 
+/// names that some stage of quil-rs treats specially (constants, functions, the imaginary unit, keywords), in
+/// several letter cases — used as VARIABLE names and as REGION names through the API
+const SPECIAL_NAMES: [&str; 24] = [
+    "pi", "PI", "Pi", "i", "I", "sin", "SIN", "Sin", "cos", "COS", "sqrt", "SQRT", "exp", "EXP", "cis", "CIS", "e", "E", "inf",
+    "nan", "NaN", "x", "BIT", "theta-1",
+];
+/// indices around vector lengths and integer boundaries
+const SPECIAL_INDICES: [u64; 10] =
+    [0, 1, 2, 3, 4, 1 << 31, 1 << 32, 1 << 53, 1 << 63, u64::MAX];
+
 fn random_stream(ctx: &mut Ctx, n: usize) {
     let mut rng = ctx.rng(13);
-    const VARS: [&str; 4] = ["x", "y", "z", "theta"];
-    const REGIONS: [&str; 4] = ["a", "b", "theta", "x"];
+    const PLAIN_VARS: [&str; 4] = ["x", "y", "z", "theta"];
+    const PLAIN_REGIONS: [&str; 4] = ["a", "b", "theta", "x"];
+    let mut previous: Option<Expression> = None;
     for case_no in 0..n {
+        // names of this case: plain, or (every 4th case) names some stage treats specially, in several cases
+        let special = case_no % 4 == 3;
+        let vars: Vec<&str> =
+            if special { (0..4).map(|_| *rng.pick(&SPECIAL_NAMES)).collect() } else { PLAIN_VARS.to_vec() };
+        let regions: Vec<&str> =
+            if special { (0..4).map(|_| *rng.pick(&SPECIAL_NAMES)).collect() } else { PLAIN_REGIONS.to_vec() };
         // leaf alphabet of this case
         let mut leaves = vec![Expression::PiConstant()];
         for _ in 0..3 {
             leaves.push(num(random_f64(&mut rng), if rng.chance(1, 2) { 0.0 } else { random_f64(&mut rng) }));
         }
-        for v in VARS {
+        for v in &vars {
             if rng.chance(2, 3) {
                 leaves.push(var(v));
             }
         }
-        for r in REGIONS {
+        for r in &regions {
             if rng.chance(2, 3) {
                 leaves.push(addr(r, rng.below(4)));
-                leaves.push(addr(r, rng.below(3)));
+                leaves.push(addr(r, if rng.chance(1, 6) { *rng.pick(&SPECIAL_INDICES) } else { rng.below(3) }));
             }
         }
         let alphabet = Alphabet::full(leaves);
@@ -406,7 +600,11 @@ fn random_stream(ctx: &mut Ctx, n: usize) {
         let e = random_expr(&mut rng, &alphabet, max_depth);
         let mut rho: VarEnv = vec![];
         let mut sigma: Subst = vec![];
-        for v in VARS {
+        let mut sigma2: Subst = vec![];
+        for v in &vars {
+            if rho.iter().any(|(k, _)| k == v) {
+                continue; // a repeated special name: one entry per key
+            }
             if rng.chance(1, 2) {
                 rho.push((v.to_string(), c(random_f64(&mut rng), random_f64(&mut rng))));
             }
@@ -418,18 +616,41 @@ fn random_stream(ctx: &mut Ctx, n: usize) {
                 };
                 sigma.push((v.to_string(), value));
             }
+            if rng.chance(1, 2) {
+                let value = if rng.chance(1, 2) { real(random_f64(&mut rng)) } else { random_expr(&mut rng, &alphabet, 1) };
+                sigma2.push((v.to_string(), value));
+            }
+        }
+        // entries for variables that do not occur at all
+        if rng.chance(1, 3) {
+            sigma.push(("absent".to_string(), real(9.0)));
+            rho.push(("unused".to_string(), c(1.0, 1.0)));
         }
         let mut mu: MemEnv = vec![];
-        for r in REGIONS {
+        for r in &regions {
+            if mu.iter().any(|(k, _)| k == r) {
+                continue;
+            }
             if rng.chance(3, 4) {
                 let len = rng.below(5) as usize;
                 mu.push((r.to_string(), (0..len).map(|_| random_f64(&mut rng)).collect()));
             }
         }
+        if rng.chance(1, 3) {
+            mu.push(("extra".to_string(), vec![1.0]));
+        }
         emit(ctx, &e, &rho, &mu, &sigma);
         if ctx.quick() || case_no % 4 == 0 {
             emit_routes(ctx, &e);
         }
+        if case_no % 4 == 1 || special {
+            emit_seq(ctx, &e, &rho, &mu, &sigma, &sigma2);
+            emit_text(ctx, &e);
+            if let Some(p) = &previous {
+                emit_instr(ctx, &e, p);
+            }
+        }
+        previous = Some(e);
     }
 }
 
